@@ -88,6 +88,16 @@ func (m *Module) WriteTo(w io.Writer) (n int64, err error) {
 	if err := m.AssignMetadataIDs(); err != nil {
 		panic(fmt.Errorf("unable to assign metadata IDs of module; %v", err))
 	}
+	// Assign the local IDs of function definitions, as they may be referred to
+	// from outside of the function body (e.g. `blockaddress(@f, %2)` in the
+	// initializer of a global variable, which is printed before @f).
+	for _, f := range m.Funcs {
+		if len(f.Blocks) > 0 {
+			if err := f.AssignIDs(); err != nil {
+				panic(fmt.Errorf("unable to assign local IDs of function %q; %v", f.Ident(), err))
+			}
+		}
+	}
 	verifhook.Yield("Module.WriteTo")
 	// Source filename.
 	if len(m.SourceFilename) > 0 {
